@@ -74,3 +74,18 @@ Inductive reachable : cid K V -> Prop :=
 | r_default d0 : reachable (default_init K V (FacVal d0))
 | r_step c o : reachable c -> reachable (fst (step K V keqb lower c o)).
 End Rel.
+
+Section RelSet.
+Variable K : Type.
+Variable keqb : K -> K -> bool.
+Variable lower : K -> K.
+Variable ksort : list K -> list K.
+(* invariant of CaseInsensitiveSet: _set is the key set of _keys (the model keeps it in the same order,
+   which is never observed), without repetition, and every remembered spelling lower-cases to its key *)
+Definition set_inv (s : cis K) : Prop :=
+  s_set K s = map fst (s_keys K s) /\ NoDup (map fst (s_keys K s)) /\
+  Forall (fun p => lower (snd p) = fst p) (s_keys K s).
+Inductive set_reachable : cis K -> Prop :=
+| sr_init l : set_reachable (cs_init K keqb lower l)
+| sr_step s o s' r : set_reachable s -> sstep K keqb lower s o = Some (s', r) -> set_reachable s'.
+End RelSet.
